@@ -160,6 +160,10 @@ var badFrames = []badFrame{
 	{op: 1, fin: true, n: 1, rsv: 4}, {op: 2, fin: false, n: 1, rsv: 1}, {op: 9, fin: true, rsv: 2},
 	{op: 0, fin: true, n: 1}, {op: 0, fin: false}, // stray continuation (when no message open)
 	{op: 1, fin: true, n: 1}, {op: 2, fin: false, n: 2}, // nested data frame (when a message is open)
+	// continuation frames breaking a rule that has nothing to do with fragmentation (inside an open message
+	// these are the only rules they break)
+	{op: 0, fin: true, n: 1, flipMk: true}, {op: 0, fin: false, n: 2, flipMk: true},
+	{op: 0, fin: true, n: 1, rsv: 4}, {op: 0, fin: false, rsv: 1}, {op: 0, fin: true, rsv: 2},
 }
 
 func runC05(c *ctx) {
